@@ -356,3 +356,22 @@ Proof. vm_compute. repeat split; reflexivity. Qed.
 Example ex_eternal_wait_hyp :
   k_neg_len [81; 128; 0; 0; 0] = true /\ k_len_minus1 [81; 128; 0; 0; 0] = false.
 Proof. vm_compute. split; reflexivity. Qed.
+
+Example ex_progress_hyp :
+  k_neg_len [81; 0; 0; 0; 9; 1] = false /\ fst (decode true [81; 0; 0; 0; 9; 1]) = Ok None.
+Proof. vm_compute. split; reflexivity. Qed.
+
+Example ex_invalid_length_hyp :
+  known_decode [90; 0; 0; 0; 2; 7] = false /\ 5 <= blen [90; 0; 0; 0; 2; 7] /\ declared_len [90; 0; 0; 0; 2; 7] < 4
+  /\ observe (decode true [90; 0; 0; 0; 2; 7]) = VErr.
+Proof. vm_compute. repeat split; congruence. Qed.
+
+Example ex_stable_hyp :
+  known_decode [112; 0; 0; 0; 6; 120; 0] = false /\ known_decode ([112; 0; 0; 0; 6; 120; 0] ++ [0; 0]) = false
+  /\ observe (decode true ([112; 0; 0; 0; 6; 120; 0] ++ [0; 0])) = VMsg (FPassword [120]) [0; 0].
+Proof. vm_compute. repeat split; reflexivity. Qed.
+
+Example ex_startup_refines_hyp :
+  known_startup [0; 0; 0; 9; 0; 3; 0; 0; 0; 81] = false
+  /\ observe (decode_startup [0; 0; 0; 9; 0; 3; 0; 0; 0; 81]) = VMsg (FStartup 196608 []) [81].
+Proof. vm_compute. split; reflexivity. Qed.
